@@ -104,6 +104,29 @@ func (r *RegistrationDB) RemoveProducer(k Registration, id string) (bool, int) {
 	return removed, len(producers)
 }
 
+// remove a producer from a registration and, if prune is set and no producer is left,
+// the registration itself. Both happen in one critical section: a producer added
+// concurrently is never deleted together with the key.
+func (r *RegistrationDB) RemoveProducerAndPrune(k Registration, id string, prune bool) (bool, int) {
+	r.Lock()
+	defer r.Unlock()
+	producers, ok := r.registrationMap[k]
+	if !ok {
+		return false, 0
+	}
+	removed := false
+	if _, exists := producers[id]; exists {
+		removed = true
+	}
+
+	delete(producers, id)
+	left := len(producers)
+	if prune && left == 0 {
+		delete(r.registrationMap, k)
+	}
+	return removed, left
+}
+
 // remove a Registration and all it's producers
 func (r *RegistrationDB) RemoveRegistration(k Registration) {
 	r.Lock()
